@@ -871,10 +871,11 @@ def evaluate(ctx, cases, res):
         for key in ('proto', 'kind'):
             res.count(f'{key}_{case["cfg"][key]}')
         for i2, (k, o, d) in enumerate(items):
-            rec = obs['hlog'].get(i2)
-            if o[0] != 'x' and (rec is None or rec[1] is None):
-                res.count('overrun_never_started' if rec is None else
-                          'overrun_in_handler' if rec[0] + d < P - 1e-9 or o[0] == 't' else 'overrun_in_handler')
+            # measured: requests answered 'server busy', by where their time went
+            rep = obs['replies'].get(i2)
+            if rep is not None and canon_reply(rep).startswith(f'E{cfg["busy"]}:') and o[0] != 'tt':
+                rec = obs['hlog'].get(i2)
+                res.count('busy_reply_handler_never_started' if rec is None else 'busy_reply_in_handler')
         if case['cfg']['pause']:
             res.count('paused_writer_cases')
         if len(items) >= 2 and any(o[0] not in ('v', 'dv') for _k, o, _d in items):
